@@ -85,9 +85,34 @@ func readKeyFile(p string) (key []byte, exists bool, wellFormed bool) {
 
 // decide implements the decision table of C11 for a regular file below root.
 func decide(root, osPath string) []alt {
-	stored, err := os.ReadFile(osPath)
+	st, err := os.Stat(osPath)
 	if err != nil {
 		return nil
+	}
+	// only the bytes around the watermark decide which transformation applies; the whole file is
+	// loaded when it is small enough to hold in memory (identity of a huge file needs no bytes here)
+	var stored []byte
+	if st.Size() <= 256<<20 {
+		stored, err = os.ReadFile(osPath)
+		if err != nil {
+			return nil
+		}
+	} else {
+		f, err := os.Open(osPath)
+		if err != nil {
+			return nil
+		}
+		head := make([]byte, maskEnd)
+		n, _ := f.ReadAt(head, 0)
+		f.Close()
+		if n == maskEnd && (bytes.Equal(head[maskBegin:maskBegin+16], wmEnc) || bytes.Equal(head[maskBegin:maskBegin+16], wmDec)) {
+			return nil // huge watermarked image: not judged
+		}
+		ext := filepath.Ext(osPath)
+		if strings.EqualFold(ext, ".iso") && strings.Contains(strings.ToLower(osPath), "/ps3iso/") {
+			return nil // huge image that may have a key: not judged
+		}
+		return []alt{{kind: "identity"}}
 	}
 	identity := alt{bytes: stored, kind: "identity"}
 	rel := strings.TrimPrefix(osPath, root)
